@@ -27,6 +27,7 @@ const (
 	c19KEnd     = 3
 	c19KRelCall = 4
 	c19KRelRet  = 5
+	c19KRead    = 6 // server scenarios: the receive loop has read request j (it hands it to the pool right away)
 )
 
 // c19Scenario is one configuration of the pool and of its environment.
@@ -677,7 +678,8 @@ func c19Coq(c *c19Case) string {
 		}
 	}
 	fifo := c.Sc.W == 1 && calls <= 200
-	return fmt.Sprintf("mkcase %d %s %s (unhex \"%s\"%%hex)", c.Sc.W, coqBool(c.Complete), coqBool(fifo), sb.String())
+	server := strings.HasPrefix(c.Sc.Mode, "tcp-") // carries "request read" events: also validated against the model of the pool's use
+	return fmt.Sprintf("mkcase %d %s %s %s (unhex \"%s\"%%hex)", c.Sc.W, coqBool(c.Complete), coqBool(fifo), coqBool(server), sb.String())
 }
 
 func init() {
@@ -685,10 +687,10 @@ func init() {
 	props["C19"] = func(a Args) {
 		runProp(Prop[c19Case]{
 			ID:       "C19",
-			Require:  "From TarsV Require Import Base.Hex Conc.Gpool.",
+			Require:  "From TarsV Require Import Base.Hex Conc.Gpool Conc.C19Case.",
 			CaseType: "tcase",
 			Mismatch: "c19_mismatch",
-			Corr:     "Gpool.accepts / accepts_complete (specification machine of the pool) on the recorded event trace; with one worker also Gpool.fifo1_ok (start order respects send order)",
+			Corr:     "Gpool.accepts / accepts_complete (specification machine of the pool) on the recorded event trace; with one worker also Gpool.fifo1_ok (start order respects send order); for the TCP server scenarios also PoolUse.puse_ok (read / start / end / Handle returned)",
 			Rule:     "distinct (W, Q, mode, job duration class, GOMAXPROCS, submitters bucket) configurations whose trace contains at least one job start and a Release",
 			Shard:    12,
 			Gen:      c19Gen,
